@@ -302,6 +302,9 @@ func constVal(c *ssa.Const) Value {
 			return constant.StringVal(c.Value)
 		}
 	}
+	if b, ok := c.Type().Underlying().(*types.Basic); ok && b.Info()&types.IsComplex != 0 {
+		return Host{c.Value.String()}
+	}
 	panic("engine: const " + c.String())
 }
 
@@ -531,11 +534,14 @@ func (in *Interp) callee(fr *Frame, c *ssa.CallCommon) Value {
 		if !ok || recv.t == nil {
 			panic(rtPanic("rt:nil", "invalid memory address or nil pointer dereference (nil interface method call)"))
 		}
+		if _, isSyn := recv.v.(*synthErr); isSyn {
+			return &Closure{intr: "synthErr." + c.Method.Name()}
+		}
+		if _, isRT := recv.v.(*RType); isRT {
+			return &Closure{intr: "reflect.Type." + c.Method.Name()}
+		}
 		fn := in.lookupMethod(recv.t, c.Method)
 		if fn == nil {
-			if _, isSyn := recv.v.(*synthErr); isSyn {
-				return &Closure{intr: "synthErr." + c.Method.Name(), recv: recv.v}
-			}
 			panic(fmt.Sprintf("engine: no method %s on %s", c.Method.Name(), recv.t))
 		}
 		return &Closure{fn: fn}
